@@ -329,6 +329,8 @@ void do_printf_chars(S &sink, char t, format_options opts,
 template<Sink S>
 void do_printf_ints(S &sink, char t, format_options opts,
 		printf_size_mod szmod, va_struct *vsp, locale_options locale_opts = {}) {
+	// The '0' flag is ignored if the '-' flag or a precision is given.
+	bool zero_padding = opts.fill_zeros && !opts.left_justify && !opts.precision;
 	switch(t) {
 	case 'd':
 	case 'i': {
@@ -350,29 +352,22 @@ void do_printf_ints(S &sink, char t, format_options opts,
 			FRG_ASSERT(szmod == printf_size_mod::default_size);
 			number = pop_arg<int>(vsp, &opts);
 		}
-		if(opts.precision && *opts.precision == 0 && !number) {
-			// print nothing in this case
-		}else{
-			_fmt_basics::print_int(sink, number, 10, opts.minimum_width,
-					opts.precision ? *opts.precision : 1, opts.fill_zeros ? '0' : ' ',
-					opts.left_justify, opts.group_thousands, opts.always_sign,
-					opts.plus_becomes_space, false, locale_opts);
-		}
+		_fmt_basics::print_int(sink, number, 10, opts.minimum_width,
+				opts.precision ? *opts.precision : 1, zero_padding ? '0' : ' ',
+				opts.left_justify, opts.group_thousands, opts.always_sign,
+				opts.plus_becomes_space, false, locale_opts);
 	} break;
 	case 'b':
 	case 'B' : {
 		auto print = [&] (auto number) {
+			const char *prefix = "";
 			if (number && opts.alt_conversion)
-				sink.append(t == 'b' ? "0b" : "0B");
+				prefix = (t == 'b' ? "0b" : "0B");
 
-			if(opts.precision && *opts.precision == 0 && !number) {
-				// print nothing in this case
-			}else{
-				_fmt_basics::print_int(sink, number, 2, opts.minimum_width,
-						opts.precision ? *opts.precision : 1, opts.fill_zeros ? '0' : ' ',
-						opts.left_justify, false, opts.always_sign, opts.plus_becomes_space,
-						false, locale_opts);
-			}
+			_fmt_basics::print_int(sink, number, 2, opts.minimum_width,
+					opts.precision ? *opts.precision : 1, zero_padding ? '0' : ' ',
+					opts.left_justify, false, opts.always_sign, opts.plus_becomes_space,
+					false, locale_opts, prefix);
 		};
 
 		if(szmod == printf_size_mod::char_size) {
@@ -394,17 +389,21 @@ void do_printf_ints(S &sink, char t, format_options opts,
 	} break;
 	case 'o': {
 		auto print = [&] (auto number) {
-			if (number && opts.alt_conversion)
-				sink.append('0');
-
-			if(opts.precision && *opts.precision == 0 && !number) {
-				// print nothing in this case
-			}else{
-				_fmt_basics::print_int(sink, number, 8, opts.minimum_width,
-						opts.precision ? *opts.precision : 1, opts.fill_zeros ? '0' : ' ',
-						opts.left_justify, false, opts.always_sign, opts.plus_becomes_space,
-						false, locale_opts);
+			// The alternative form increases the precision (if necessary)
+			// such that the first digit is a zero.
+			int precision = opts.precision ? *opts.precision : 1;
+			if (opts.alt_conversion) {
+				int num_digits = 0;
+				for (auto v = number; v; v /= 8)
+					num_digits++;
+				if (precision <= num_digits)
+					precision = num_digits + 1;
 			}
+
+			_fmt_basics::print_int(sink, number, 8, opts.minimum_width,
+					precision, zero_padding ? '0' : ' ',
+					opts.left_justify, false, opts.always_sign, opts.plus_becomes_space,
+					false, locale_opts);
 		};
 
 		if(szmod == printf_size_mod::char_size) {
@@ -427,17 +426,14 @@ void do_printf_ints(S &sink, char t, format_options opts,
 	case 'x':
 	case 'X': {
 		auto print = [&] (auto number) {
+			const char *prefix = "";
 			if (number && opts.alt_conversion)
-				sink.append(t == 'x' ? "0x" : "0X");
+				prefix = (t == 'x' ? "0x" : "0X");
 
-			if(opts.precision && *opts.precision == 0 && !number) {
-				// print nothing in this case
-			}else{
-				_fmt_basics::print_int(sink, number, 16, opts.minimum_width,
-						opts.precision ? *opts.precision : 1, opts.fill_zeros ? '0' : ' ',
-						opts.left_justify, false, opts.always_sign, opts.plus_becomes_space,
-						t == 'X', locale_opts);
-			}
+			_fmt_basics::print_int(sink, number, 16, opts.minimum_width,
+					opts.precision ? *opts.precision : 1, zero_padding ? '0' : ' ',
+					opts.left_justify, false, opts.always_sign, opts.plus_becomes_space,
+					t == 'X', locale_opts, prefix);
 		};
 
 		if(szmod == printf_size_mod::char_size) {
@@ -460,14 +456,10 @@ void do_printf_ints(S &sink, char t, format_options opts,
 	case 'u': {
 		auto print = [&] (auto number) {
 			FRG_ASSERT(!opts.alt_conversion);
-			if(opts.precision && *opts.precision == 0 && !number) {
-				// print nothing in this case
-			}else{
-				_fmt_basics::print_int(sink, number, 10, opts.minimum_width,
-						opts.precision ? *opts.precision : 1, opts.fill_zeros ? '0' : ' ',
-						opts.left_justify, opts.group_thousands, opts.always_sign,
-						opts.plus_becomes_space, false, locale_opts);
-			}
+			_fmt_basics::print_int(sink, number, 10, opts.minimum_width,
+					opts.precision ? *opts.precision : 1, zero_padding ? '0' : ' ',
+					opts.left_justify, opts.group_thousands, opts.always_sign,
+					opts.plus_becomes_space, false, locale_opts);
 		};
 
 		if(szmod == printf_size_mod::char_size) {
